@@ -23,16 +23,25 @@ def replay_graph(v, module, cfg, tag, profile, stack_pars, ev, hid_keys=None):
         raise ToolError(f"{len(unreachable)} exported edges start in states unreachable from the initial states")
     wd = workdir(tag)
     total = dict(runs=0, steps=0, hidden=0, drifts=0)
-    for sp in stack_pars:
+    build(profile)
+
+    def one(isp):
+        i, sp = isp
         objs = []
         for init, steps in runs:
             par = dict(L=init["L"], te=init.get("te", False), **sp)
             objs.append(dict(par=par, init=init, steps=[dict(lab=e["lab"], to=e["to"]) for e in steps]))
-        rp = os.path.join(wd, "runs.jsonl")
-        op = os.path.join(wd, "out.json")
+        rp = os.path.join(wd, f"runs{i}.jsonl")
+        op = os.path.join(wd, f"out{i}.json")
         write_jsonl(rp, objs)
         mbt(profile, "layers", rp, op)
-        o = json.load(open(op))
+        os.remove(rp)
+        return sp, json.load(open(op))
+
+    from concurrent.futures import ThreadPoolExecutor
+    with ThreadPoolExecutor(max_workers=8) as ex:
+        results = list(ex.map(one, list(enumerate(stack_pars))))
+    for sp, o in results:
         total["runs"] += o["runs"]; total["steps"] += o["steps"]; total["hidden"] += o["hidden_compared"]
         total["drifts"] += o["drifts"]
         if o["drifts"]:
@@ -62,7 +71,13 @@ def main(tier):
               drifts=0, constants={})
     prof = "s20"
     replay_graph(v, "MCEncReader", f"EncReader.{tier}.export.cfg", "c11-enc", prof,
-                 [dict(stack="enc", offset=0, seed=seed() + 1), dict(stack="enc", offset=13, seed=seed() + 2)], ev)
+                 [dict(stack="enc", offset=0, seed=seed() + 1), dict(stack="enc", offset=13, seed=seed() + 2),
+                  dict(stack="comp+enc", offset=0, seed=seed() + 7, level_of_model="prop")], ev)
+    replay_graph(v, "MCCompReader", f"CompReader.{tier}.export.cfg", "c11-comp", prof,
+                 [dict(stack="comp", offset=0, seed=seed() + 3),
+                  dict(stack="comp", offset=5, seed=seed() + 4, entropy="low", level=0, pieces=[7, 1, 50]),
+                  dict(stack="comp+enc", offset=3, seed=seed() + 5, level=11, level_of_model="prop"),
+                  dict(stack="raw", offset=9, seed=seed() + 6, level_of_model="prop")], ev)
     cov = dict(states=ev["states"], transitions=ev["transitions"],
                traces_validated_against_impl=ev["runs"], samples=ev["samples"][:3] or ["none"],
                edges_exported=ev["edges"], steps_replayed=ev["steps"], hidden_state_steps_compared=ev["hidden"],
